@@ -325,7 +325,7 @@ def setup():
         accts = Set(Acct)
 
     class Log(db.Entity):
-        id = PrimaryKey(int)
+        id = PrimaryKey(int, auto=True)          # explicit ids in most programs; generated by the database in p_auto_*
         msg = Required(str)
 
     db.generate_mapping(create_tables=True)
@@ -563,6 +563,34 @@ def p_select_then_raw(E, mark):
     E.Log(id=1, msg='mixed')
 
 
+def p_auto_flush_first(E, mark):
+    # "flush to learn the id": the INSERT of an object with a database-generated key is the first write of the session
+    l = E.Log(msg='auto')
+    l.flush()
+    E.Acct[1].bal -= 50
+    E.Acct[2].bal += 50
+
+
+def p_auto_two(E, mark):
+    from pony.orm import flush
+    E.Acct[1].bal -= 50
+    l1 = E.Log(msg='one'); l1.flush()
+    l2 = E.Log(msg='two')
+    flush()
+    E.Acct[2].bal += 50
+
+
+def p_caught_flush_error(E, mark):
+    # the program swallows whatever flush() raises and goes on: the session still ends with everything or nothing
+    from pony.orm import flush
+    E.Acct[1].bal -= 50
+    E.Acct(id=4, bal=400)
+    try: flush()
+    except Exception: pass
+    E.Acct[2].bal += 50
+    E.Log(id=1, msg='went on')
+
+
 def _retry_kw():
     from pony.orm import OperationalError
     return dict(retry=1, retry_exceptions=[OperationalError])
@@ -596,6 +624,9 @@ PROGRAMS = {
     'raw_subselect': (p_raw_subselect, [[('log+', 1, 'copied'), ('bal', 1, -50), ('bal', 2, 50), ('tag-', 2)]]),
     'get_connection_after_read': (p_get_connection_after_read, [[('bal', 1, -50), ('bal', 2, 50), ('log+', 1, 'raw after read')]]),
     'select_then_raw': (p_select_then_raw, [[('bal', 1, -50), ('bal', 2, 50), ('log+', 1, 'mixed')]]),
+    'auto_flush_first': (p_auto_flush_first, [[('log+', 1, 'auto'), ('bal', 1, -50), ('bal', 2, 50)]]),
+    'auto_two': (p_auto_two, [[('bal', 1, -50), ('log+', 1, 'one'), ('log+', 2, 'two'), ('bal', 2, 50)]]),
+    'caught_flush_error': (p_caught_flush_error, [[('bal', 1, -50), ('acct+', 4, 400), ('bal', 2, 50), ('log+', 1, 'went on')]]),
 }
 
 
@@ -1180,6 +1211,60 @@ def select_then_raw(k1: int, k2: int, k3: int, kind1: int, kind2: int, kind3: in
     """
     return ok(_scenario('select_then_raw', k1, k2, k3, kind1, kind2, kind3, mode, warm))
 HARNESSES.append('select_then_raw')
+
+
+def auto_flush_first(k1: int, k2: int, k3: int, kind1: int, kind2: int, kind3: int, mode: int, warm: bool) -> bool:
+    """
+    pre: 0 <= k1 <= KMAX
+    pre: (k2 == 0) or (0 < k1 < k2 <= K2MAX)
+    pre: (k3 == 0) or (0 < k2 < k3 <= K3MAX)
+    pre: 0 <= kind1 < KINDS and 0 <= kind2 < KINDS and 0 <= kind3 < KINDS
+    pre: (kind1 == 0 or k1 != 0) and (kind2 == 0 or k2 != 0) and (kind3 == 0 or k3 != 0)
+    pre: (kind1 != 1 or k2 == 0) and (kind2 != 1 or k3 == 0)
+    pre: FULL or k2 == 0 or (kind1 == 0 and kind2 <= 1)
+    pre: k3 == 0 or (kind1 == 0 and kind2 == 0 and kind3 <= 1)
+    pre: 0 <= mode < MODES
+    pre: WARM or not warm
+    post: _
+    """
+    return ok(_scenario('auto_flush_first', k1, k2, k3, kind1, kind2, kind3, mode, warm))
+HARNESSES.append('auto_flush_first')
+
+
+def auto_two(k1: int, k2: int, k3: int, kind1: int, kind2: int, kind3: int, mode: int, warm: bool) -> bool:
+    """
+    pre: 0 <= k1 <= KMAX
+    pre: (k2 == 0) or (0 < k1 < k2 <= K2MAX)
+    pre: (k3 == 0) or (0 < k2 < k3 <= K3MAX)
+    pre: 0 <= kind1 < KINDS and 0 <= kind2 < KINDS and 0 <= kind3 < KINDS
+    pre: (kind1 == 0 or k1 != 0) and (kind2 == 0 or k2 != 0) and (kind3 == 0 or k3 != 0)
+    pre: (kind1 != 1 or k2 == 0) and (kind2 != 1 or k3 == 0)
+    pre: FULL or k2 == 0 or (kind1 == 0 and kind2 <= 1)
+    pre: k3 == 0 or (kind1 == 0 and kind2 == 0 and kind3 <= 1)
+    pre: 0 <= mode < MODES
+    pre: WARM or not warm
+    post: _
+    """
+    return ok(_scenario('auto_two', k1, k2, k3, kind1, kind2, kind3, mode, warm))
+HARNESSES.append('auto_two')
+
+
+def caught_flush_error(k1: int, k2: int, k3: int, kind1: int, kind2: int, kind3: int, mode: int, warm: bool) -> bool:
+    """
+    pre: 0 <= k1 <= KMAX
+    pre: (k2 == 0) or (0 < k1 < k2 <= K2MAX)
+    pre: (k3 == 0) or (0 < k2 < k3 <= K3MAX)
+    pre: 0 <= kind1 < KINDS and 0 <= kind2 < KINDS and 0 <= kind3 < KINDS
+    pre: (kind1 == 0 or k1 != 0) and (kind2 == 0 or k2 != 0) and (kind3 == 0 or k3 != 0)
+    pre: (kind1 != 1 or k2 == 0) and (kind2 != 1 or k3 == 0)
+    pre: FULL or k2 == 0 or (kind1 == 0 and kind2 <= 1)
+    pre: k3 == 0 or (kind1 == 0 and kind2 == 0 and kind3 <= 1)
+    pre: 0 <= mode < MODES
+    pre: WARM or not warm
+    post: _
+    """
+    return ok(_scenario('caught_flush_error', k1, k2, k3, kind1, kind2, kind3, mode, warm))
+HARNESSES.append('caught_flush_error')
 
 
 if __name__ == '__main__':
